@@ -92,6 +92,14 @@ impl Lift for MulShiftedValue {
                 return None;
             };
 
+            // The shifted sub-word has to stay within the word, as otherwise (part of) it is
+            // shifted out and it no longer describes a region of the word
+            if let RSVD::SubWord { size, .. } = value.data() {
+                if offset.checked_add(*size)? > WORD_SIZE_BITS {
+                    return None;
+                }
+            }
+
             Some(RSVD::Shifted { offset, value })
         }
 
